@@ -1248,8 +1248,8 @@ func main() {
 		// ==-comparable types with their own Equal: UH with a Hash method that agrees with it (value receivers, first
 		// field only: modelled), WH holding one by value; CS / CSH named strings with a case-folding Equal, CSH with a
 		// Hash() int32 that agrees with it (hand-written, unknown to the Lean model: consistency ops only)
-		&ty.Decl{Name: "UH", Pkg: "", Under: ty.St(ty.F("A", b("int")), ty.F("B", b("string"))), Methods: "Ev.Hv"},
-		&ty.Decl{Name: "WH", Pkg: "", Under: ty.St(ty.F("V", n(shadow0+5)), ty.F("N", b("int")))},
+		&ty.Decl{Name: "UHx", Pkg: "", Under: b("int")}, // (placeholder: UH is declaration 60 of gen.Lib now)
+		&ty.Decl{Name: "WH", Pkg: "", Under: ty.St(ty.F("V", n(60)), ty.F("N", b("int")))},
 		&ty.Decl{Name: "CS", Pkg: "", Under: b("string")},
 		&ty.Decl{Name: "CSH", Pkg: "", Under: b("string")},
 		// a ==-comparable struct whose Equal takes an interface{} (the gogo/protobuf shape that plugin/equal calls) and
@@ -1257,7 +1257,10 @@ func main() {
 		&ty.Decl{Name: "UI", Pkg: "", Under: ty.St(ty.F("A", b("int")), ty.F("B", b("string")))},
 		&ty.Decl{Name: "WI", Pkg: "", Under: ty.St(ty.F("V", n(shadow0+9)), ty.F("N", b("int")))})
 	word, key, bb, rt, rc := n(shadow0), n(shadow0+1), n(shadow0+2), n(shadow0+3), n(shadow0+4)
-	uh, wh, cs, csh := n(shadow0+5), n(shadow0+6), n(shadow0+7), n(shadow0+8)
+	uh, wh, cs, csh := n(60), n(shadow0+6), n(shadow0+7), n(shadow0+8)
+	if env.Decls[60].Name != "UH" {
+		must(fmt.Errorf("gen.Lib: declaration 60 is %s, expected UH", env.Decls[60].Name))
+	}
 	ui, wi := n(shadow0+9), n(shadow0+10)
 	nu64 := n(46)
 	localSrc := map[string]string{"RC": `
@@ -1279,8 +1282,6 @@ func (this *RC) Compare(that *RC) int {
 	}
 	return 0
 }
-
-`, "UH": `func (this UH) Hash() int32 { return int32(this.A) }
 
 `, "CS": `
 func (this CS) Equal(that CS) bool { return fold(string(this)) == fold(string(that)) }
